@@ -569,6 +569,15 @@ func (s *Stats) AddViolation(v Violation) {
 	s.Violations = append(s.Violations, v)
 }
 
+// DropLastViolation removes the provisional entry written before shrinking.
+func (s *Stats) DropLastViolation() {
+	s.mu.Lock()
+	defer s.mu.Unlock()
+	if n := len(s.Violations); n > 0 {
+		s.Violations = s.Violations[:n-1]
+	}
+}
+
 func (s *Stats) Write(path string) error {
 	s.mu.Lock()
 	defer s.mu.Unlock()
